@@ -1,4 +1,5 @@
 import WS.Lemmas.PoolInv
+import WS.Lemmas.PoolInvZ
 /-
   C20 — Pooled write buffers are held only while writing and never touched after release.
 -/
@@ -22,5 +23,18 @@ example :
         (fun e => match e with | .poolGet _ => true | .poolPut _ => true | _ => false)) =
       [.poolGet none, .poolPut (some 0), .poolGet (some 0), .poolPut (some 0)] := by
   decide
+
+open WS.PoolInvZ in
+/-- the same with permessage-deflate negotiated (flate wrappers, toggling, levels), for every
+    execution in which the compress/flate answers are consistent (`EnvAdmissible`: what the
+    compressor pushed is the deflate stream minus its tail — checked on every correspondence run) -/
+theorem pool_balance_compression (s0 : W) (h0 : FreshZ s0) (ops : List Op) (henv : WireWF.EnvAdmissible s0 ops) :
+    Inv (run s0 ops) := by
+  first | exact PoolInvZ.pool_balance_z .. | (apply PoolInvZ.pool_balance_z <;> assumption)
+
+open WS.PoolInvZ in
+theorem no_nil_put_compression (s0 : W) (h0 : FreshZ s0) (ops : List Op) (henv : WireWF.EnvAdmissible s0 ops) :
+    Ev.poolPut none ∉ (run s0 ops).log := by
+  first | exact PoolInvZ.no_nil_put_z .. | (apply PoolInvZ.no_nil_put_z <;> assumption)
 
 end WS.Props.C20
